@@ -403,3 +403,97 @@ Proof.
   destruct (step s o) as [s' out] eqn:E. pose proof (H s o s' out E) as W.
   destruct out; try (specialize (IH s'); destruct (run_hist step s' rest); cbn [snd] in *; congruence).
 Qed.
+
+(* ------------------------------------------------------------------ purity for segments and files *)
+(* a fragment inside a segment: as frag_fr, and EncOptimize may have been overwritten by the segment's *)
+Definition frag_fr_o (f f' : afrag) : Prop := frag_fr (af_set_opt f (af_opt f')) f'.
+
+Lemma frag_fr_refl f : frag_fr f f.
+Proof.
+  unfold frag_fr, frag_rel. repeat split; [destruct (af_moof f); cbn [orel]; [apply moof_fr_refl|exact I]|
+                                           destruct (af_mdat f); cbn [orel]; [left; reflexivity|exact I]].
+Qed.
+
+Lemma frag_fr_o_refl f : frag_fr_o f f.
+Proof. unfold frag_fr_o. rewrite af_set_opt_same. apply frag_fr_refl. Qed.
+
+Lemma enc_seq_rel {A} (enc : A -> A * res (list (list N))) (R : A -> A -> Prop) :
+  (forall a, R a a) -> (forall a a' r, enc a = (a', r) -> R a a') ->
+  forall l l' r, enc_seq enc l = (l', r) -> Forall2 R l l'.
+Proof.
+  intros Hrefl H. induction l as [|a rest IH]; intros l' r E.
+  - injection E as <- _. constructor.
+  - cbn [enc_seq] in E. destruct (enc a) as [a' ra] eqn:Ea. pose proof (H a a' ra Ea) as Ra.
+    destruct ra as [b| | |].
+    + destruct (enc_seq enc rest) as [rest' r2] eqn:Er. injection E as <- _. constructor; [exact Ra|eapply IH; reflexivity].
+    + injection E as <- _. constructor; [exact Ra|apply Forall2_refl; exact Hrefl].
+    + injection E as <- _. constructor; [exact Ra|apply Forall2_refl; exact Hrefl].
+    + injection E as <- _. constructor; [exact Ra|apply Forall2_refl; exact Hrefl].
+Qed.
+
+Definition seg_fr (s s' : aseg) : Prop :=
+  sg_styp s' = sg_styp s /\ sg_sidxs s' = sg_sidxs s /\ sg_opt s' = sg_opt s /\ Forall2 frag_fr_o (sg_frags s) (sg_frags s').
+
+Lemma seg_fr_refl s : seg_fr s s.
+Proof. repeat split. apply Forall2_refl, frag_fr_o_refl. Qed.
+
+Lemma aseg_encode_pure s s' r : aseg_encode s = (s', r) -> seg_fr s s'.
+Proof.
+  unfold aseg_encode. destruct (enc_list enc_obox _); try (intros [= <- _]; apply seg_fr_refl).
+  destruct (enc_frags (sg_opt s) (sg_frags s)) as [fs' r2] eqn:E. intros [= <- _].
+  unfold seg_fr. cbn [aseg_with_frags sg_styp sg_sidxs sg_frags sg_opt]. repeat split.
+  unfold enc_frags in E. eapply enc_seq_rel; [apply frag_fr_o_refl| |exact E].
+  intros x x' rx Hx. unfold frag_fr_o. pose proof (afrag_encode_pure _ _ _ Hx) as P.
+  assert (Ho : af_opt x' = sg_opt s) by (destruct P as (_ & _ & _ & O & _); exact O).
+  rewrite Ho. exact P.
+Qed.
+
+(* a segment inside a file: EncOptimize may have been set by the file's *)
+Definition seg_fr_o (s s' : aseg) : Prop := seg_fr (aseg_set_opt s (sg_opt s')) s'.
+Definition fc_fr (c c' : fchild) : Prop :=
+  match c, c' with FcMdat m, FcMdat m' => md_fr m m' | _, _ => c' = c end.
+
+Lemma seg_fr_o_refl s : seg_fr_o s s.
+Proof. unfold seg_fr_o. destruct s; apply seg_fr_refl. Qed.
+Lemma fc_fr_refl c : fc_fr c c.
+Proof. destruct c; cbn [fc_fr]; try reflexivity. left; reflexivity. Qed.
+
+Definition file_fr (f f' : afile) : Prop :=
+  fl_fragmented f' = fl_fragmented f /\ fl_mode f' = fl_mode f /\ fl_opt f' = fl_opt f /\ fl_shared f' = fl_shared f /\
+  fl_init f' = fl_init f /\ fl_sidxs f' = fl_sidxs f /\ fl_mfra f' = fl_mfra f /\
+  Forall2 seg_fr_o (fl_segs f) (fl_segs f') /\ Forall2 fc_fr (fl_children f) (fl_children f').
+
+Lemma file_fr_refl f : file_fr f f.
+Proof. repeat split; [apply Forall2_refl, seg_fr_o_refl|apply Forall2_refl, fc_fr_refl]. Qed.
+
+Lemma fc_encode_pure c c' r : fc_encode c = (c', r) -> fc_fr c c'.
+Proof.
+  destruct c as [m|md|o]; cbn [fc_encode].
+  - intros [= <- _]. reflexivity.
+  - destruct (amd_enc md) as [md' r'] eqn:E. intros [= <- _].
+    assert (Hm : md' = md_size_touch md) by (rewrite <- (amd_enc_fst md), E; reflexivity). subst md'. right. reflexivity.
+  - intros [= <- _]. reflexivity.
+Qed.
+
+Lemma afile_encode_pure f f' r : afile_encode f = (f', r) -> file_fr f f'.
+Proof.
+  unfold afile_encode. destruct (fl_fragmented f && negb (fl_mode f =? 0) && negb (fl_mode f =? 1)); [intros [= <- _]; apply file_fr_refl|].
+  destruct (afile_seg_mode f).
+  - destruct (enc_list enc_obox _); try (intros [= <- _]; apply file_fr_refl).
+    destruct (enc_segs (fl_opt f) (fl_segs f)) as [ss' r2] eqn:E.
+    assert (W : Forall2 seg_fr_o (fl_segs f) ss').
+    { unfold enc_segs in E. eapply enc_seq_rel; [apply seg_fr_o_refl| |exact E].
+      intros x x' rx Hx. unfold seg_fr_o. pose proof (aseg_encode_pure _ _ _ Hx) as P.
+      assert (Ho : sg_opt x' = sg_opt (if fl_opt f then aseg_set_opt x true else x)) by (destruct P as (_ & _ & O & _); exact O).
+      destruct (fl_opt f); cbn [aseg_set_opt sg_opt] in Ho; rewrite Ho; [exact P|].
+      destruct x; exact P. }
+    assert (G : file_fr f (afile_with f ss' (fl_children f))).
+    { unfold file_fr. cbn [afile_with fl_fragmented fl_mode fl_opt fl_shared fl_init fl_sidxs fl_segs fl_mfra fl_children].
+      repeat split; [exact W|apply Forall2_refl, fc_fr_refl]. }
+    destruct r2; try (intros [= <- _]; exact G).
+    destruct (enc_list enc_obox (opt_list (fl_mfra f))); intros [= <- _]; exact G.
+  - destruct (enc_children (fl_children f)) as [cs' r2] eqn:E. intros [= <- _].
+    unfold file_fr. cbn [afile_with fl_fragmented fl_mode fl_opt fl_shared fl_init fl_sidxs fl_segs fl_mfra fl_children].
+    repeat split; [apply Forall2_refl, seg_fr_o_refl|].
+    unfold enc_children in E. eapply enc_seq_rel; [apply fc_fr_refl|apply fc_encode_pure|exact E].
+Qed.
